@@ -257,6 +257,13 @@ def main():
     probe.stop()
     if hasattr(mod, "teardown"):
         mod.teardown(ctx)
+    try:
+        from rv.gen.circuits import COUNTS as _gc
+
+        for k, v in _gc.items():
+            ctx.count(k, v)
+    except Exception:  # noqa: BLE001
+        pass
     res["hashes"] = sorted(seen)
     res["violations"] = ctx.violations[:40]
     res["violations_total"] = len(ctx.violations)
